@@ -1301,4 +1301,90 @@ theorem finishAt_usedOn (id : Nat) : ∀ (rs : List LRunner) (k : Nat), usedOn (
       simp only [usedOn, finishAt, List.map_cons, List.sum_cons] at this ⊢
       omega
 
+/-! ### the reservation of the larger graph -/
+
+/-- the finished plan, with the reservation the code really compares: the planned size plus the part of the
+    LARGER graph that was reserved but not charged (`max(gP,gF) - graph`) plus the overhead fits -/
+def FinalOkS (c : Core) (graph : Nat) (s : GS) : Prop :=
+  (s.alloc = 0 ∨ s.alloc + (c.maxg - graph) + c.overhead ≤ s.free) ∧
+  (0 < s.count → s.alloc + (c.maxg - graph) + c.overhead < s.free)
+
+theorem addGraph_final_strong (c : Core) (N : List Nat) (L0 : Nat) (hL0 : L0 ∈ N) (graph : Nat)
+    (hgr : graph ≤ c.maxg) (gs : List GS) (h : ∀ s ∈ gs, Good c N s) :
+    ∀ s ∈ addGraph graph gs, FinalOkS c graph s := by
+  intro s hs
+  unfold addGraph at hs
+  simp only [List.mem_map] at hs
+  obtain ⟨s0, hs0, rfl⟩ := hs
+  obtain ⟨hok, hroom⟩ := h s0 hs0
+  have hr := hroom L0 hL0
+  unfold Room W at hr
+  have hr' : c.maxg + s0.free < 18446744073709551616 := by
+    split at hr <;> omega
+  clear hr
+  unfold OkG at hok
+  unfold FinalOkS
+  split
+  · rename_i hc
+    rcases hok with ⟨h0, _⟩ | ⟨h1, _⟩
+    · exact ⟨Or.inl h0, by omega⟩
+    · exact ⟨Or.inr (by omega), by omega⟩
+  · rename_i hc
+    unfold wr
+    simp only
+    rcases hok with ⟨_, h0⟩ | ⟨h1, h2⟩
+    · omega
+    · have := h2 (by omega)
+      exact ⟨Or.inr (by omega), fun _ => by omega⟩
+
+
+theorem plan_final_strong (c : Core) (gpus : List Gpu) (hroom : RoomAll c gpus) :
+    (∀ s ∈ (plan c gpus).gs, FinalOkS c (if (plan c gpus).fully then c.gF else c.gP) s) ∧
+    (plan c gpus).gs.map (·.free) = gpus.map (·.free) := by
+  let N := c.memOut :: c.layerSizes
+  have hmem : c.memOut ∈ N := by simp [N]
+  have hadm := admit_good c N c.memOut hmem gpus 0 [] hroom
+  have hws : WsOk c (gpus.map (·.free)) (admit c 0 gpus []).1 :=
+    admit_ws c gpus gpus 0 [] (fun k => by simp) (fun _ g hg => by simp at hg)
+  have hloop := layerLoop_good c N (gpus.map (·.free)) c.layerSizes 0
+    { ws := (admit c 0 gpus []).1, gs := (admit c 0 gpus []).2, lc := 0 }
+    (fun L hL => by simp [N, hL]) hadm (admit_free c gpus 0 []) hws
+  have hfree := layerLoop_free c c.layerSizes 0
+    { ws := (admit c 0 gpus []).1, gs := (admit c 0 gpus []).2, lc := 0 }
+  rw [show ({ ws := (admit c 0 gpus []).1, gs := (admit c 0 gpus []).2, lc := 0 } : St).gs
+      = (admit c 0 gpus []).2 from rfl, admit_free] at hfree
+  simp only at hloop
+  generalize hst : layerLoop c 0 c.layerSizes
+    { ws := (admit c 0 gpus []).1, gs := (admit c 0 gpus []).2, lc := 0 } = st at hloop hfree
+  obtain ⟨hloop, hwst⟩ := hloop
+  have hgP : c.gP ≤ c.maxg := by unfold Core.maxg; omega
+  have hgF : c.gF ≤ c.maxg := by unfold Core.maxg; omega
+  simp only [plan, hst]
+  generalize hpl : (if (decide (c.memOut > 0) && !capped c st.lc) = true then
+      placeOut c st.gs st.ws st.lc c.memOut st.ws.length else none) = placed
+  have hgraph : ∀ (b : Bool), (if b then c.gF else c.gP) ≤ c.maxg := by
+    intro b; cases b <;> simp [hgP, hgF]
+  cases placed with
+  | none =>
+    simp only [addGraph_free]
+    exact ⟨addGraph_final_strong c N c.memOut hmem _ (hgraph _) _ hloop, hfree⟩
+  | some g =>
+    simp only [addGraph_free, bump_free]
+    refine ⟨addGraph_final_strong c N c.memOut hmem _ (hgraph _) _ ?_, hfree⟩
+    split at hpl
+    · obtain ⟨s0, hs0, hf⟩ := placeOut_some c st.gs st.ws st.lc c.memOut _ _ hpl
+      have hgm := placeOut_mem c st.gs st.ws st.lc c.memOut _ _ hpl
+      apply bump_forall (Good c N) c.memOut st.gs g hloop
+      intro s hs
+      rw [hs0] at hs
+      injection hs with hs
+      subst hs
+      refine fits_good c N s0 c.memOut hmem ?_ (hloop s0 (List.mem_of_getElem? hs0)) hf
+      intro hv
+      apply hwst hv g hgm s0.free
+      rw [← hfree, List.getElem?_map, hs0]
+      rfl
+    · cases hpl
+
+
 end OllamaVerif.Memory
